@@ -192,3 +192,9 @@ package dns
 //@   ensures[L:opt-length] len(out) == 11 + optionsWire(payloadS(rr.Data), len(payloadS(rr.Data)))
 //@   loop 3 "range data"
 //@     invariant[L:options] !berr(s) && len(bbuf(s)) == entry(len(bbuf(s))) + optionsWire(payloadS(rr.Data), ri3)
+
+// RRType maps a type name to its number through the package's table; the result is a function of the name's contents.
+//@ ghostfn rrTypeOf(name int) int
+//@ func RRType returns (id)
+//@   trusted
+//@   ensures int(id) == rrTypeOf(cid(t))
